@@ -505,7 +505,7 @@ def main():
     # every type: empty, boundaries
     for tag in TYPE_NAMES:
         if tag == "L":
-            trees += [("L", []), ("L", [("L", [])]), chain(6, ("L", [])), chain(6, ("A", b"x y")), chain(5, ("U1", [1, 2]))]
+            trees += [("L", []), ("L", [("L", [])]), chain(5, ("L", [])), chain(6, ("A", b"x y")), chain(6, ("U1", [1, 2])), chain(6, ("J", b"\x80 \xff")), chain(6, ("F8", [0.1, -0.0]))]
         elif tag in ("A", "J", "B"):
             trees += [(tag, b""), (tag, bytes(range(256))), (tag, bytes(range(255, -1, -1)))]
         elif tag == "BOOLEAN":
@@ -516,7 +516,11 @@ def main():
         else:
             sp = [x for x in SPECIAL_DOUBLES if abs(x) <= FLT_MAX] + ([DBL_MAX, -DBL_MAX] if tag == "F8" else [])
             trees += [(tag, [])] + [(tag, [x]) for x in sp] + [(tag, sp)]
-    n_rand = 6000 if big else 1500
+    corpus_path = os.path.join(hlib.ROOT, "corpus", "C15.json")
+    corpus = json.load(open(corpus_path)) if os.path.exists(corpus_path) else {"items": [], "texts": []}
+    trees += [parse_sexp(x) for x in corpus.get("items", [])]
+    res.bump("corpus", "items", len(corpus.get("items", [])))
+    n_rand = 40000 if big else 6000
     for i in range(n_rand):
         aq = rng.chance(1, 8)
         aj = rng.chance(1, 8)
@@ -554,7 +558,10 @@ def main():
             res.bump("roundtrip", "fails:" + klass)
         else:
             res.bump("roundtrip", "ok")
-            if len(valid_texts) < 400 or rng.chance(1, 6):
+            if i < n_exh:
+                if i % 40 == 0:
+                    valid_texts.append(text)
+            else:
                 valid_texts.append(text)
         # C: print
         cases.append(key[:300])
@@ -590,7 +597,9 @@ def main():
         lines.append(parse_line(text))
         answers.append(ans)
 
-    base_texts = valid_texts[: (400 if big else 120)]
+    for t in corpus.get("texts", []):
+        reject_case(t, None, "corpus")
+    base_texts = valid_texts[: (2000 if big else 400)]
     n_del = n_mut = 0
     for text in base_texts:
         toks = tokens_of(text)
@@ -612,24 +621,24 @@ def main():
                     reject_case(variant, "unknown-type-name", "mutate-type-name")
                     n_mut += 1
     res.exhaustive_parts.append(f"every single-token deletion ({n_del}) and type-name mutation at every type position ({n_mut}) of {len(base_texts)} valid SML texts")
-    for i in range(6000 if big else 1500):
+    for i in range(40000 if big else 6000):
         reject_case(random_token_text(rng), None, "random-tokens")
-    for i in range(6000 if big else 1500):
+    for i in range(40000 if big else 6000):
         t = random_shaped_text(rng)
         if rng.chance(1, 4):
             t = t + rng.choice([" ", "", " >", " <", " . ", " junk"])
         reject_case(t, None, "hand-layout")
-    for i in range(4000 if big else 1000):
+    for i in range(30000 if big else 4000):
         reject_case(random_char_text(rng), None, "random-chars")
     # every strict prefix of a valid text lacks (at least) the final closing bracket
-    for text in base_texts[:(60 if big else 20)]:
+    for text in base_texts[:(400 if big else 80)]:
         for cut in range(len(text)):
             reject_case(text[:cut], "missing-closing-bracket", "truncate")
     hlib.compare_batch(res, drv, "Item.from_sml vs Model.Sml.parse on the rejection stream", cases, lines, answers)
 
     # ------------------------------------------------------------ C. tokenizer and int() literal correspondence
     cases, lines, answers = [], [], []
-    for i in range(2000 if big else 500):
+    for i in range(20000 if big else 3000):
         t = random_char_text(rng) if i % 2 else random_token_text(rng)
         cases.append(t[:100])
         lines.append("sml tokens " + dotted(t))
@@ -640,7 +649,7 @@ def main():
     lit_alpha = list("0123456789abcdefxXoObB_+- ") + ["\t", "\x0b", "\x0c", "\x1f", "\x85", "\xa0", "g", "A", "F", " ", "."]
     lits = [t for t in TOKEN_ALPHABET] + ["0x_1f", "0x__1", "0_0", "0_1", "-00", "+-1", "- 1", " 1 ", "0B1", "0O17", "0x_", "", "-", "0b2", "0o8", "0x1_f", "0_", "0__0",
                                           "0b_1", "0_x1", "-0x10", "+0b11", "0xFF", "0Xff", "1_", "١"[:0] + "12", " 1　", "\x1f1"]
-    for i in range(3000 if big else 800):
+    for i in range(30000 if big else 4000):
         lits.append("".join(rng.choice(lit_alpha) for _ in range(rng.range(0, 6))))
     for t in lits:
         for b0 in (0, 1):
@@ -656,7 +665,7 @@ def main():
     # ------------------------------------------------------------ D. the laws assumed of the float text (theorem hypotheses), sampled
     n_law = 0
     bad_chars = set(" \t\n\r<>[]'\"")
-    for i in range(40000 if big else 12000):
+    for i in range(200000 if big else 30000):
         if i < len(SPECIAL_DOUBLES):
             x = SPECIAL_DOUBLES[i]
         elif i % 4 == 0:
